@@ -282,7 +282,7 @@ def residuals(prog: Program, rep) -> None:
     xs = f"{zc}[:self.problem.num_vars]"
     dx = f"self.flow.neg_aug_lag_deriv_x({zc}, {rc})"
     lo = f"np.logical_and(Flow.isclose({xs}, self.problem.var_lb), {dx} < 0)"
-    up = f"np.logical_and(Flow.isclose({xs}, self.problem.var_ub), {dx} > 0)"
+    up = f"np.logical_and(Flow.isclose({xs}, self.problem.var_ub), 0 < {dx})"
     ok = defs.get("active_lower") == lo and defs.get("active_upper") == up and defs.get("fixed_indices") == f"np.logical_or({lo}, {up})"
     rep.check(ok, "filter-sign-table", cf.qualname, "active_lower / active_upper",
               "a variable is pinned iff it sits at its lower bound with negative flow (-grad L < 0) or at its upper bound with positive flow", cf.loc())
